@@ -78,6 +78,14 @@ class Importer:
             else:
                 for icolumn, column in enumerate(row):
                     if column.startswith("**"):
+                        if (self._prev_stage_parents is not None and icolumn >= len(self._prev_stage_parents)
+                                and not all(cell.startswith("**") for cell in row)):
+                            # a new spine cannot start out of nowhere: only a header row may have more cells than live spines
+                            raise ValueError(f'Wrong columns number in row {self._row_number}. '
+                                             f'The token in column #{icolumn} and row #{self._row_number}'
+                                             f' has more columns than expected in its row. '
+                                             f'Expected {len(self._prev_stage_parents)} columns '
+                                             f'but found {len(row)}.')
                         self._compute_header_token(icolumn, column)
                         # go to next row
                         continue
